@@ -3,6 +3,7 @@
   Statements about the store model (Store/Model.lean); helper lemmas in OlricModel/Proofs.
 -/
 import OlricModel.Props.C11
+import OlricModel.Proofs.KVFull
 namespace Olric.C20
 open Olric KV Table
 
@@ -76,6 +77,62 @@ theorem C20_bound (k : KV) (w : k.WF) (now : Int) (order : List Nat) (E : Nat)
   · exact C20_table_bound t E h2 h1 h
   · exact absurd h hne
 
+/-- the entries a workload writes are at most `E` bytes long (29 + key + value) -/
+def sizeLe (E : Nat) : C11.Op → Prop
+  | .put _ r _ => r.size ≤ E
+  | .putRaw _ r => r.size ≤ E
+  | _ => True
+
+/-- **C20 (a retired table is nearly full), one step.**  Every store operation keeps: each table
+    behind the head has less than `E` bytes of room left or is empty, and every stored entry is at
+    most `E` bytes long — `E` being a bound on the entries the workload writes. -/
+theorem C20_nearfull_step (E : Nat) (k : KV) (w : k.WF) (c : KV.Churn E k) (op : C11.Op) (hsz : sizeLe E op) :
+    KV.Churn E (C11.step k op).1 := by
+  cases op with
+  | put h r now => exact KV.churn_put E k w c h r now hsz
+  | putRaw h r => exact KV.churn_putRaw E k w c h r hsz
+  | get h now => exact KV.churn_get E k w c h now
+  | del h => exact KV.churn_delete E k w c h
+  | ttl h ttl ts now => exact KV.churn_updateTTL E k w c h ttl ts now
+  | compact now order => exact KV.churn_compaction E k w c now order
+
+/-- ... hence in every state a churn workload can reach, of any length -/
+theorem C20_nearfull_run (E : Nat) (ops : List C11.Op) (hok : ∀ op ∈ ops, op.ok) (hsz : ∀ op ∈ ops, sizeLe E op)
+    (k : KV) (w : k.WF) (c : KV.Churn E k) : KV.Churn E (C11.run k ops).1 := by
+  induction ops generalizing k with
+  | nil => exact c
+  | cons op ops ih =>
+    obtain ⟨w1, _⟩ := C11.C11_step k w op (hok op List.mem_cons_self)
+    exact ih (fun x hx => hok x (List.mem_cons_of_mem _ hx)) (fun x hx => hsz x (List.mem_cons_of_mem _ hx))
+      _ w1 (C20_nearfull_step E k w c op (hsz op List.mem_cons_self))
+
+/-- **C20 (bound, every reachable state).**  After any workload of inserts, raw inserts, reads,
+    deletes, expiry updates and compaction calls, in any order and of any length, whose entries are
+    at most `E` bytes long: once `Compaction` answers done, every non-empty table behind the head holds
+    live data for more than 60 % of its size minus `E` bytes — 3·alloc < 5·inuse + 5·E + 1.  No
+    hypothesis about the tables is left: "retired ⇒ nearly full" is the invariant `KV.Churn`. -/
+theorem C20_bound_reachable (E size : Nat) (idle : Int) (ops : List C11.Op) (hok : ∀ op ∈ ops, op.ok)
+    (hsz : ∀ op ∈ ops, sizeLe E op) (now : Int) (order : List Nat)
+    (hd : ((C11.run (KV.fork size idle) ops).1.compaction now order).2 = true) :
+    ∀ t ∈ (C11.run (KV.fork size idle) ops).1.old, t.slots ≠ [] → 3 * t.alloc < 5 * t.inuse + 5 * E + 1 := by
+  have w := (C11.C11_refines_fork size idle ops hok).1
+  have c := C20_nearfull_run E ops hok hsz _ (fork_wf size idle) (KV.churn_fork E size idle)
+  exact C20_bound _ w now order E hd c.full
+
+/-- summed over the tables behind the head: 3·(allocated) ≤ 5·(bytes in use) + (5·E + 1)·(tables),
+    empty tables aside -/
+theorem C20_bound_sum (E : Nat) (ts : List Table)
+    (h : ∀ t ∈ ts, 3 * t.alloc < 5 * t.inuse + 5 * E + 1) :
+    3 * (ts.map (·.alloc)).sum ≤ 5 * (ts.map (·.inuse)).sum + (5 * E + 1) * ts.length := by
+  induction ts with
+  | nil => simp
+  | cons t ts ih =>
+    have h1 := h t List.mem_cons_self
+    have h2 := ih (fun x hx => h x (List.mem_cons_of_mem _ hx))
+    simp only [List.map_cons, List.sum_cons, List.length_cons]
+    rw [Nat.mul_add, Nat.mul_add, Nat.mul_add]
+    omega
+
 /-- **C20 (recycling).**  A new table is allocated only when no recycled one exists: with a recycled
     table present `makeTable` leaves the allocated total unchanged. -/
 theorem C20_reuse (k : KV) (t : Table) (rest : List Table)
@@ -108,9 +165,37 @@ theorem C20_reuse (k : KV) (t : Table) (rest : List Table)
   | none => simp [hh] at this ⊢; omega
   | some hd => simp [hh] at this ⊢; omega
 
+/-- **C20 (compaction keeps making progress until the garbage ratio is below its threshold).**  From
+    every reachable store, the worker's loop (call `Compaction` until it answers done) stops within
+    `2·(stored records) + (retired tables) + 3` calls for every iteration order and clock, and then
+    every table behind the head is below 40 % garbage; each call before that lowers `KV.mu`
+    (C11_compaction_progress). -/
+theorem C20_compaction_reaches_threshold (ord : KV → List Nat) (now : Nat → Int)
+    (hord : ∀ k : KV, k.WF → KV.ValidOrder k (ord k)) (k : KV) (w : k.WF) (hts : 0 < k.tableSize) :
+    let n := 2 * k.stats.length + k.old.length + 3
+    (KV.compactLoop ord now n k).2 = true ∧
+    ∀ t ∈ (KV.compactLoop ord now n k).1.old, t.garbage * 5 < t.alloc * 2 := by
+  intro n
+  obtain ⟨a, _, _, e⟩ := C11.C11_compaction_terminates ord now hord k w hts
+  refine ⟨a, fun t ht => ?_⟩
+  have h := e t ht
+  simp only [needsCompaction, decide_eq_false_iff_not, Nat.not_le] at h
+  exact h
+
 /-! Non-vacuity -/
 example : ∀ t ∈ (C11.run (KV.fork 256 1000) C11.demoOps).1.newestFirst,
     t.inuse = sumSize t.slots ∧ t.inuse + t.garbage = t.off :=
   C20_accounting_run 256 1000 C11.demoOps C11.demoOps_ok
+
+/-- the churn hypotheses are met by the demo workload (entries of at most 180 bytes), and after it a
+    retired table that is not empty really is within 180 bytes of full -/
+example : KV.Churn 180 (C11.run (KV.fork 256 1000) C11.demoOps).1 :=
+  C20_nearfull_run 180 C11.demoOps C11.demoOps_ok (by
+    intro op hop
+    simp only [C11.demoOps, List.mem_cons, List.mem_nil_iff, or_false] at hop
+    rcases hop with rfl | rfl | rfl | rfl | rfl | rfl | rfl <;> simp [sizeLe, C11.recA, C11.recB, Rec.size])
+    _ (fork_wf 256 1000) (KV.churn_fork 180 256 1000)
+set_option maxRecDepth 100000 in
+example : (C11.run (KV.fork 256 1000) C11.demoOps).1.old.map (fun t => (t.off, t.alloc, t.slots.length)) = [(213, 256, 1)] := by decide
 
 end Olric.C20
